@@ -65,6 +65,11 @@ func ip2int(ip net.IP) uint32 {
 		return binary.BigEndian.Uint32(ip[12:16])
 	}
 
+	// an absent address (e.g. the IPv4 part of an IPv6-only F-SEID or F-TEID)
+	if len(ip) < 4 {
+		return 0
+	}
+
 	return binary.BigEndian.Uint32(ip)
 }
 
